@@ -3,12 +3,13 @@ CONSTANTS
  Mans = {"m1", "m2"}
  TagOrder <- MCTagOrder
  Procs = {"p1", "p2", "p3"}
- Confs <- LayClean
+ Confs <- LayShared
  MaxOps = 1
  OpTags = {"t1", "t2"}
  OpMans = {"m1", "m2"}
- OpKinds <- AllKinds
+ OpKinds <- HeadRaceKinds
  UseMutex = TRUE
+ FreshPH = TRUE
 SPECIFICATION Spec
 INVARIANTS HeadStable
 CHECK_DEADLOCK FALSE
